@@ -206,6 +206,52 @@ def _task(task):
     return t
 
 
+def _task_objects(task):
+    """Object level: calibrators built with the public constructors and queried through calibrate() on a dyadic grid that
+    includes every knot, the midpoints between knots and points half a unit outside both ends (not only integer raws)."""
+    from fractions import Fraction
+    from space_packet_parser.exceptions import CalibrationError
+    from space_packet_parser.xtce import calibrators
+    from mc.ref.interp import RefRaise, RefUnspecified, calibrate
+    from mc.observe import same_value
+    t = Tally()
+    with case_alarm(900):
+        for cal in task["cals"]:
+            if isinstance(cal, Poly):
+                lib = calibrators.PolynomialCalibrator([calibrators.PolynomialCoefficient(float(c), int(e)) for c, e in cal.terms])
+                grid = [-4, -1.5, -0.25, 0, 0.5, 1, 2.75, 8, 31, 255.5]
+            else:
+                lib = calibrators.SplineCalibrator([calibrators.SplinePoint(float(r), float(c)) for r, c in cal.points], order=cal.order,
+                                                   extrapolate=cal.extrapolate)
+                xs = sorted(r for r, _ in cal.points)
+                grid = sorted(set(xs + [(a + b) / 2 for a, b in zip(xs, xs[1:])] + [(3 * a + b) / 4 for a, b in zip(xs, xs[1:])]
+                                  + [xs[0] - 0.5, xs[0] - 16, xs[-1] + 0.5, xs[-1] + 16]))
+            for x in grid:
+                for q in ((x, int(x)) if float(x).is_integer() else (x,)):   # int and float query of the same point
+                    t.evals += 1
+                    try:
+                        want, scale = calibrate(cal, q)
+                        wk = "value"
+                    except RefRaise:
+                        want, scale, wk = None, 0.0, "CalibrationError"
+                    except RefUnspecified:
+                        continue
+                    try:
+                        got = lib.calibrate(q)
+                        gk = "value"
+                    except CalibrationError:
+                        got, gk = None, "CalibrationError"
+                    except Exception as e:  # noqa: BLE001
+                        got, gk = None, "raised:" + type(e).__name__
+                    t.outcomes[f"object:{wk}"] += 1
+                    ok = wk == gk and (wk != "value" or (isinstance(got, (int, float)) and not isinstance(got, bool) and same_value(want, float(got), tolerant=True, scale=scale)))
+                    if not ok:
+                        t.violation({"kind": "calibrate-mismatch", "calibrator": type(cal).__name__, "order": getattr(cal, "order", None), "got": gk},
+                                    {"object_level": True, "calibrator": repr(cal), "query": q}, expected=(wk, want), observed=(gk, got))
+            t.nontrivial += 1
+    return t
+
+
 def run(ctx):
     allv = variants(ctx.tier)
     idx = list(range(len(allv)))
@@ -217,6 +263,8 @@ def run(ctx):
     obj_idx = [i for fam, lst in fam_first.items() for i in lst[:: max(1, len(lst) // 12)]]
     tasks += [{"idx": ch, "tier": ctx.tier, "via": "objects"} for ch in chunked(obj_idx, 8)]
     tally = fan_out(_task, tasks, jobs=ctx.jobs, seed=ctx.seed)
+    cals = polys(ctx.tier) + splines(ctx.tier)
+    tally.merge(fan_out(_task_objects, [{"cals": ch} for ch in chunked(cals, 48)], jobs=ctx.jobs, seed=ctx.seed))
     coverage = {
         "programs": tally.programs,
         "exhaustive": True,
@@ -224,7 +272,8 @@ def run(ctx):
                   f"{len(splines(ctx.tier))} splines (2..4 strictly increasing raws from -4,0,3,8,31, calibrated from -2,0,0.5,10, order 0/1, extrapolate T/F) "
                   "queried at ALL 32 raw values (every knot, both ends, both outside regions); context lists of 0..2 from a 6-criterion alphabet "
                   "(earlier parameter, own raw value, list, boolean expression) x default present/absent x SEL 0..3; enumerations int/float/string encoded "
-                  "with listed and unlisted raws, booleans, both also over calibrated encodings; time types with scale/offset"),
+                  "with listed and unlisted raws, booleans, both also over calibrated encodings; time types with scale/offset; object level: every polynomial and spline "
+                  "queried through calibrate() at every knot, the midpoints and quarter points between knots and points outside both ends, as int and as float"),
         "rule": "one evaluation = one packet; distinct non-trivial = distinct calibrator/derivation configurations, each swept over all its raw values",
     }
     return {"level": LEVEL, "tally": tally, "coverage": coverage,
@@ -233,6 +282,14 @@ def run(ctx):
 
 
 def replay(case):
+    if case.get("object_level"):
+        cals = polys("thorough") + splines("thorough")
+        hit = [c for c in cals if repr(c) == case["calibrator"]]
+        t = _task_objects({"cals": hit})
+        for v in t.violations:
+            if v["case"]["query"] == case["query"]:
+                return v
+        return None
     t = _task({"idx": [case["variant"]], "tier": case.get("tier", "thorough"), "via": case.get("via", "xml")})
     for v in t.violations:
         if v["case"].get("sel") == case.get("sel") and v["case"].get("raw_pattern") == case.get("raw_pattern"):
